@@ -139,6 +139,9 @@ pub fn replay(c: &Value) -> Option<(String, String)> {
     let text: Vec<char> = c["text"].as_str()?.chars().collect();
     let labels: Vec<u8> = serde_json::from_value(c["labels"].clone()).ok()?;
     let tags: Vec<Vec<Option<String>>> = serde_json::from_value(c["tags"].clone()).ok()?;
+    if let Some(l) = c["label"].as_str() {
+        return check_roundtrip(&text, &labels, &tags).map(|(k, w)| (format!("{k} {l}"), w.chars().take(300).collect()));
+    }
     check_roundtrip(&text, &labels, &tags).map(|(k, w)| (sig(&k, &text, &labels, &tags), w))
 }
 
@@ -231,6 +234,44 @@ pub fn run(tier: Tier) -> ! {
         for c in sigma {
             l3.par_iter().filter(|l| l.len() == 3).for_each(|l| report(&[c], &[], &[l.clone()]));
         }
+    }
+    // (d) threshold sizes: the number of tags of one character, of characters of a sentence and of characters of
+    // one tag around 255/256 and 1 KiB (thorough also 4 KiB and u16); short signatures
+    {
+        let sizes: Vec<usize> = tier.pick(vec![254usize, 255, 256, 257, 300, 1025], vec![254, 255, 256, 257, 300, 1025, 4097, 65535, 65536, 65537]);
+        let mut cases: Vec<(String, Vec<char>, Vec<u8>, Vec<Vec<Option<String>>>)> = vec![];
+        let tg = |i: usize| -> Option<String> { if i % 7 == 3 { None } else { Some(format!("t{}", i % 11)) } };
+        for &k in &sizes {
+            // k tags on the first / middle / last of three characters; the others carry 0 or 2 tags
+            for pos in 0..3usize {
+                for other in [0usize, 2] {
+                    let mut ct: Vec<Vec<Option<String>>> = (0..3).map(|_| (0..other).map(|i| Some(format!("o{i}"))).collect()).collect();
+                    ct[pos] = (0..k).map(tg).collect();
+                    *ct[pos].last_mut().unwrap() = Some("last".into());
+                    cases.push((format!("{k}-tags-on-character-{pos}-others-{other}"), vec!['a', '-', 'あ'], vec![(pos % 3) as u8, ((pos + 1) % 3) as u8], ct));
+                }
+            }
+            // k characters, every third with two tags, labels cycling
+            {
+                let text: Vec<char> = (0..k).map(|i| ['a', 'あ', '/', '-', '|'][i % 5]).collect();
+                let ct: Vec<Vec<Option<String>>> = (0..k).map(|i| if i % 3 == 0 { vec![tg(i), Some("y".into())] } else { vec![] }).collect();
+                cases.push((format!("{k}-characters"), text, (0..k - 1).map(|i| ((i + i / 4) % 3) as u8).collect(), ct));
+            }
+            // one tag of k characters
+            {
+                let tag: String = (0..k).map(|i| ['t', '/', 'あ', '-', '|', ' '][i % 6]).collect();
+                cases.push((format!("{k}-character-tag"), vec!['a', 'b'], vec![1], vec![vec![Some(tag.clone())], vec![None, Some(tag)]]));
+            }
+        }
+        chk.set("threshold_cases", json!(cases.len()));
+        cases.par_iter().for_each(|(label, text, labels, ct)| {
+            chk.eval(1);
+            chk.nontrivial(1);
+            if let Some((k, what)) = check_roundtrip(text, labels, ct) {
+                let what: String = what.chars().take(300).collect();
+                chk.violation(format!("{k} {label}"), what, json!({"text": gen::s(text), "labels": labels, "tags": ct, "label": label}));
+            }
+        });
     }
     chk.sample(json!({"text": "a-", "labels": "|", "tags": [["x", null, "a-b"], ["/"]]}));
     chk.sample(json!({"text": "あ|a", "labels": " -", "tags": [[], [" "], ["\\"]]}));
